@@ -135,6 +135,15 @@ def check_blocked(facts, body, add):
             ok = E.mentions_field(ex, "max_blocking_time") or _local_derives_field(fc, ex, "max_blocking_time")
             add("R27e", "expiration_time derives from reliability.max_blocking_time", ok,
                 "expiration is %s" % fc.show(ex)[:120], s.line)
+            # ... counted from the moment the write blocks (the local clock), not from the sample's source timestamp
+            exprs = [ex]
+            ex0 = E.strip_casts(ex)
+            if ex0[0] == "local" and not ex0[2]:
+                exprs = [fc._def_expr(d) for d in fc.mir.whole_defs(ex0[1])]
+            clock = any(E.mentions_call(x, "Clock::now") for x in exprs)
+            stamp = any(any(y[0] == "param" and not y[2] and "Time" in fc.mir.locals[y[1]] for y in E.walk(x)) for x in exprs)
+            add("R27e", "expiration_time = Clock::now() + max_blocking_time (the blocking period starts when the write blocks)", clock and not stamp,
+                "expiration is %s: with a future-dated source timestamp the write times out only after (timestamp - now) + max_blocking_time" % " | ".join(fc.show(x)[:100] for x in exprs), s.line)
         # reached only when reliable and NOT acknowledged
         def g(e2, outcome, ce):
             e0 = E.strip_casts(e2)
